@@ -610,6 +610,7 @@ def run_malformed(ctx, n):
             exc = ("OTHER", type(e).__name__, str(e)[:100])
         status, val, seen = CM.model_save(ctx, d, ilst, "c0")
         ctx.corr_cases += 1
+        ctx.count("malformed-outcome:" + ("ok" if exc is None else exc[1]))
         ctx.case(("malformed", kind, i))
         CM.compare(ctx, "c10 malformed %s on %s" % (kind, name), status, val, b.getvalue(), exc,
                    {"runner": "c10.malformed", "layout": name, "damage": kind, "file": d.hex() if len(d) < 1500 else "len:%d" % len(d)})
